@@ -584,13 +584,45 @@ func (fc *FCtx) callByContract(c *FuncContract, fn *types.Func, sig *types.Signa
 	if len(e.Args) != len(pn) {
 		oos("argument count mismatch calling %s", fn.FullName())
 	}
+	var litArgs []*ast.FuncLit
 	for i, a := range e.Args {
 		pt := sig.Params().At(i).Type()
+		if lit, isLit := unparen(a).(*ast.FuncLit); isLit {
+			litArgs = append(litArgs, lit)
+			names[pn[i]] = Val{T: "@funclit", S: fc.U.opaque("Func")}
+			continue
+		}
 		v := fc.eval(a, st)
 		v = fc.coerce(v, pt)
 		names[pn[i]] = v
 		if _, isPtr := pt.(*types.Pointer); isPtr {
 			outs = append(outs, outParam{pn[i], a, pt})
+		}
+	}
+	// closures passed to the callee: their `maintains` clauses must hold now ...
+	type litInfo struct {
+		fi *FuncInfo
+		c  *FuncContract
+	}
+	var lits []litInfo
+	for _, lit := range litArgs {
+		var lfi *FuncInfo
+		for _, cand := range fc.E.funcs {
+			if cand.Lit == lit {
+				lfi = cand
+			}
+		}
+		if lfi == nil {
+			oos("function literal argument not indexed")
+		}
+		lc := fc.E.cs.Funcs[lfi.Key]
+		if lc == nil {
+			lc = &FuncContract{Key: lfi.Key}
+		}
+		lits = append(lits, litInfo{lfi, lc})
+		for i, m := range lc.Maintains {
+			env := fc.newEnv(st, fc.entry, lit.Body.Lbrace+1)
+			fc.oblige(st, "closure-maintains@"+shortKey(lfi.Key), fc.specBool(m.Expr, env), fmt.Sprintf("maintains[%d] of %s holds before the call: %s", i, lfi.Key, m.Src), e.Pos())
 		}
 	}
 	gsuf := ""
@@ -674,6 +706,18 @@ func (fc *FCtx) callByContract(c *FuncContract, fn *types.Func, sig *types.Signa
 	for _, en := range c.Ensures {
 		env := &Env{fc: fc, st: st, old: pre, names: post, oldNames: names, pkg: fc.E.pkgOfContract(c), gsuf: gsuf}
 		st.assume(fc.specBool(en.Expr, env))
+	}
+	// ... and still hold afterwards, whatever number of times the callee ran them: the variables they
+	// assign are havocked, then the clauses are assumed
+	for _, li := range lits {
+		lv := fc.modifiedIn(li.fi.Lit.Body)
+		lv.ghost = false
+		fc.havoc(st, lv)
+		for _, m := range li.c.Maintains {
+			env := fc.newEnv(st, fc.entry, li.fi.Lit.Body.Lbrace+1)
+			st.assume(fc.specBool(m.Expr, env))
+		}
+		fc.assumed["closure "+shortPkg(li.fi.Key)+" is only run by the callee (any number of times); its maintains clauses are verified separately"] = true
 	}
 	return res
 }
@@ -911,4 +955,5 @@ var extAliases = map[string]struct {
 	"Coins.Add":      {"(github.com/cosmos/cosmos-sdk/types.Coins).Add", "sdk.Coins"},
 	"Coins.Sub":      {"(github.com/cosmos/cosmos-sdk/types.Coins).Sub", "sdk.Coins"},
 	"Coins.IsAnyGT":  {"(github.com/cosmos/cosmos-sdk/types.Coins).IsAnyGT", "Bool"},
+	"ValidatorI.GetTokens": {"(github.com/cosmos/cosmos-sdk/x/staking/types.ValidatorI).GetTokens", "Int"},
 }
